@@ -98,6 +98,10 @@ randomly before going deeper in the tree.
 			defer closeWriteFile(resfile, outresfile)
 		}
 		for t := range treechan {
+			if t.Err != nil {
+				io.LogError(t.Err)
+				return t.Err
+			}
 			statemap, nsteps, err = acr.ParsimonyAcr(t.Tree, tipstates, algo, acrrandomresolve)
 			if err != nil {
 				io.LogError(err)
